@@ -16,6 +16,15 @@ CHECKS = {
    technique='Coq proof over a Gallina model + differential correspondence (vm_compute) with the Go implementation'),
 }
 
+CHECKS['C16'] = dict(cat='proof', ref='DESIGN.md §7 C16, Appendix A.1, notes/C16.md',
+   text='Kernel-checked, axiom-free: for ALL pairs of byte strings the model of ComputeEdits returns an edit list (compute_edits_total: '
+        'Myers furthest-reaching + overshoot lemmas, index bounds, no fuel exhaustion) and applying it per LSP 3.17 gives exactly `after`, '
+        'edits ordered, non-overlapping, inside the document (compute_edits_sound). The model is compared edit list for edit list with the real '
+        'ComputeEdits (overlay test) on the exhaustive <=4-line domain over {a,b,""} (40,401 distinct pairs, thorough) and random/real-policy/'
+        'CRLF/CR/unicode/malformed pairs; the real edits are also applied independently in Go and by the Coq lsp_apply.',
+   technique='Coq proof (Myers diff invariants F1-F3,B1,O1,E1,T1,T2) over a Gallina model of diff.go + differential correspondence via go test -overlay',
+   note=TB + ' Editor-specific application and UTF-16 columns are not modelled (all characters are 0). Finding fixed in /repo 778ab02 (lone CR line ends).')
+
 NOT_YET = {}
 
 def main():
